@@ -99,19 +99,74 @@ def shape_nan(rng, name, b):
 NAMED = ["sphere", "circle2d", "box", "torus", "plate", "rod", "empty", "full", "zero", "halfspace", "steps", "csg"]
 NANS = ["sqrt-minus", "log-minus", "neg-sqrt", "sqrt-csg", "sqrt-pos"]
 
-# operators for random trees: interval routines with *known* unsound maybe-NaN flags (C02 findings:
-# nth-root, mod, sin/cos/tan of infinite operands, exp overflow, inf-inf) are left to C02
+# operators for random trees.  Until the C02 flag fixes (nth-root parity, mod, compare, recip/pow over 0, sin/cos/tan
+# of infinite operands, inf-inf, NaN bounds) these were restricted to neg/abs/square/sqrt/log and add/sub/mul/min/max;
+# now every opcode the renderer can meet is drawn.
 RAND_UNARY = ["neg", "abs", "square", "sqrt"]
 RAND_BINARY = ["add", "sub", "mul", "min", "max"]
+WIDE_UNARY = gen.UNARY_EXACT + gen.UNARY_TRANS                      # + recip sin cos tan asin acos atan exp log
+WIDE_BINARY = gen.BINARY_EXACT + gen.BINARY_OTHER                   # + div atan2 pow nth-root mod nanfill compare
+
+
+def shape_wide_named(rng, name, b):
+    """hand shapes around the opcodes whose interval flags were repaired"""
+    X, Y, Z = b.x(), b.y(), b.z()
+    a = rng.choice([X, Y, Z])
+    t = rng.uniform(-1.5, 1.5)
+    arg = b.bi("sub", a, b.c(t))
+    if name == "recip":            # 1/(a-t) - c : pole inside the grid
+        return b.bi("sub", b.un("recip", arg), b.c(rng.choice([1.0, -1.0, 4.0])))
+    if name == "div":              # z / (a-t) - c
+        return b.bi("sub", b.bi("div", Z, arg), b.c(rng.choice([0.5, -0.5, 2.0])))
+    if name == "div-zero-zero":    # (a-t)/(a-t) - 2 : 0/0 = NaN on one plane of voxel centres at most, else -1
+        return b.bi("sub", b.bi("div", arg, arg), b.c(2.0))
+    if name == "mod":              # repeating slabs: mod(a, p) - p/2
+        per = rng.choice([0.5, 1.0, 1.5, -1.0])
+        return b.bi("sub", b.bi("mod", a, b.c(per)), b.c(per / 2))
+    if name == "mod-z":            # z - mod(x, 1): sawtooth terrain
+        return b.bi("sub", Z, b.bi("mod", X, b.c(rng.choice([1.0, 0.7, 2.0]))))
+    if name == "compare":          # compare(a, t) * r + z : step of height r
+        return b.bi("add", b.bi("mul", b.bi("compare", a, b.c(t)), b.c(rng.uniform(0.2, 1.5))), Z)
+    if name == "compare-nan":      # compare(sqrt(arg), c) - 0.5 : NaN operand
+        return b.bi("sub", b.bi("compare", b.un("sqrt", arg), b.c(1.0)), b.c(0.5))
+    if name == "pow-neg":          # (a-t)^-2 - c : pole
+        return b.bi("sub", b.bi("pow", arg, b.c(float(rng.choice([-1, -2])))), b.c(rng.choice([1.0, 4.0])))
+    if name == "pow":              # z - (x-t)^k
+        return b.bi("sub", Z, b.bi("pow", b.bi("sub", X, b.c(t)), b.c(float(rng.choice([2, 3, 4])))))
+    if name == "nth-root":         # nth-root(a-t, k) - c : NaN for even k on the negative side
+        return b.bi("sub", b.bi("nth-root", arg, b.c(float(rng.choice([2, 3, 4, 5])))), b.c(rng.choice([0.5, 1.0, 10.0])))
+    if name == "trig":             # z - sin(2x)*cos(3y)
+        return b.bi("sub", Z, b.bi("mul", b.un("sin", b.bi("mul", b.c(2.0), X)), b.un("cos", b.bi("mul", b.c(3.0), Y))))
+    if name == "tan":              # tan(a) - z : poles
+        return b.bi("sub", b.un("tan", a), Z)
+    if name == "asin":             # asin / acos outside [-1,1] is NaN
+        return b.bi("sub", b.un(rng.choice(["asin", "acos"]), arg), b.c(rng.choice([0.5, 1.0, 3.0])))
+    if name == "atan2":            # angular wedge
+        return b.bi("sub", b.un("abs", b.bi("atan2", Y, X)), b.c(rng.uniform(0.3, 2.5)))
+    if name == "exp-log":          # log(exp(a) - 1) - c : NaN / -inf region
+        return b.bi("sub", b.un("log", b.bi("sub", b.un("exp", a), b.c(1.0))), b.c(rng.choice([0.0, -1.0, 5.0])))
+    if name == "exp-big":          # exp(40 a) - exp(40 b) - 1 : overflow to inf - inf
+        c = rng.choice([x for x in (X, Y, Z) if x != a])
+        return b.bi("sub", b.bi("sub", b.un("exp", b.bi("mul", b.c(40.0), a)), b.un("exp", b.bi("mul", b.c(40.0), c))), b.c(1.0))
+    if name == "nanfill":          # nanfill(sqrt(arg) - 10, z)
+        return b.bi("nanfill", b.bi("sub", b.un("sqrt", arg), b.c(10.0)), Z)
+    raise KeyError(name)
+
+
+WIDE = ["recip", "div", "div-zero-zero", "mod", "mod-z", "compare", "compare-nan", "pow-neg", "pow", "nth-root", "trig",
+        "tan", "asin", "atan2", "exp-log", "exp-big", "nanfill"]
 
 
 def shape_random(rng, b_unused=None):
-    style = rng.choice(["csg", "arith", "nan"])
+    style = rng.choice(["csg", "arith", "nan", "wide", "wide", "wide-csg"])
     un = list(RAND_UNARY)
+    bi = list(RAND_BINARY)
     if style == "nan":
         un += ["sqrt", "log"]
-    g = gen.TreeGen(rng, size=rng.randint(4, 16), unary=un, binary=RAND_BINARY,
-                    p_minmax=0.45 if style == "csg" else 0.2, consts="mixed")
+    if style.startswith("wide"):
+        un, bi = list(WIDE_UNARY), list(WIDE_BINARY)
+    g = gen.TreeGen(rng, size=rng.randint(4, 16), unary=un, binary=bi,
+                    p_minmax=0.45 if style.endswith("csg") else 0.2, consts="mixed")
     root = g.build()
     return g.lines, root, "rand-" + style, g.hist
 
@@ -192,15 +247,20 @@ def gen_cases(rng, n, tier):
             ws = [1, 4] if tier == "quick" else list(range(1, 17))
         else:
             u = rng.random()
-            if u < 0.45:
+            if u < 0.38:
                 b = B()
                 name = rng.choice(NAMED)
                 root = shape_named(rng, name, b)
                 tl, hist = b.lines, {}
-            elif u < 0.65:
+            elif u < 0.58:
                 b = B()
                 name = rng.choice(NANS)
                 root = shape_nan(rng, name, b)
+                tl, hist = b.lines, {}
+            elif u < 0.72:
+                b = B()
+                name = rng.choice(WIDE)
+                root = shape_wide_named(rng, name, b)
                 tl, hist = b.lines, {}
             else:
                 tl, root, name, hist = shape_random(rng)
